@@ -43,6 +43,9 @@ CHECKS = {
  "C13": ("runtime round-trip monitor over all generated models discovered by scanning the tree, unknown-element insertion at every boundary, byte comparison of regenerated code",
          "All generated models (79 today, rediscovered at check time from zz_generated.go + definition files) are exercised with type-directed values: announced length and wire plan vs bytes produced, strict TLV walk, Parse(Encode(v)) == v contiguous and segmented, unknown non-critical/critical element at every top-level boundary; and the generator is rebuilt from the tree and its output compared byte-for-byte with every checked-in zz_generated.go.",
          "Signature-valued fields are left empty here (covered by C03/C12); unexported marker fields are not compared; reflection reads the encoder's unexported length/wirePlan.", "5/C13"),
+ "C15": ("runtime monitor of a real producer/consumer object.Client pair on two basic.Engines over harness faces and a shared virtual clock; a harness relay reorders and drops packets; callback log and reassembled bytes compared with what was published; store differential",
+         "Contents around multiples of the 8000-byte segment size (1..200000 bytes, 1-7 input buffers, names with/without spare capacity), 1-4 versions in random order, optional removal of the newest, memory and bolt stores, clean / reordering / lossy-within-budget / beyond-budget relay profiles: completion must be reported exactly once; within the retry budget without error and byte-identical to the newest version; beyond it an error completion is accepted but silence or a second completion is not. MemoryStore and BoltStore must answer identically after the same Produce/Remove history.",
+         "The virtual clock advances only when the relay queue is empty and both Client.run goroutines are parked in select (runtime.Stack); version 0 is not used.", "5/C15"),
  "C16": ("Go race detector over concurrent table-client and real-pipeline workloads (reports parsed, deduplicated by innermost repository frame pair, filtered to the shared-table code) + porcupine linearizability checking of recorded client histories + survival/deadlock watchdog",
          "Children are built with -race: 2..16 goroutines (GOMAXPROCS 2/4/16) register/unregister routes, tear faces down, edit FIB/strategies, list and look up like a forwarding thread (copy, sort by cost, read) on both FIBs; 4 real forwarding threads process Interests while tables are mutated; 2-4 clients record call/return-stamped histories that porcupine checks against a sequential flattening+LPM model including the final lookups. A race report with a side in fw/table, fw/face/table.go, fw/dispatch or the NLSR readvertiser, a crash, a 60 s stall or a non-linearizable history is a violation.",
          "Interleavings are sampled, not enumerated; race reports on statistics counters / harness / core.ShouldQuit are listed as out of scope in the evidence; porcupine timeout would be inconclusive.", "5/C16"),
